@@ -48,7 +48,7 @@ def observe (before after : State) : List (String × Json) :=
   let emitted := new.filter (·.rnd != 0)
   let notices := (new.filter (·.rnd == 0)).length
   [("out", Json.arr (emitted.map msgJ).toArray), ("closed", decide (after.closes > 0)),
-   ("notice", if emitted.length < 2 * after.sc.ids.length then Json.num notices else Json.str "any"),
+   ("notice", Json.num notices),
    ("term", termJ after)]
 
 /-- in-order run of an all-honest session of the model: every party's messages are delivered to
